@@ -47,10 +47,11 @@ func errOrigin(st *fstate, t *Term) *Term {
 				r = mk("res", "0", t)
 			}
 			rk := r.Key()
+			tk := t.Key()
 			var next *Term
 			for _, k := range sortedKeys(st.facts) {
 				fc := st.facts[k]
-				if fc.S == "eq" && len(fc.A) == 2 && fc.A[0].Key() == rk {
+				if fc.S == "eq" && len(fc.A) == 2 && (fc.A[0].Key() == rk || fc.A[0].Key() == tk) && fc.A[1].Key() != tk {
 					next = fc.A[1]
 					break
 				}
@@ -86,7 +87,7 @@ func errOrigin(st *fstate, t *Term) *Term {
 			rk := mk("res", "0", t).Key()
 			found := false
 			for _, fc := range st.facts {
-				if (fc.S == "eq" || fc.S == "def") && len(fc.A) >= 2 && fc.A[0].Key() == rk {
+				if (fc.S == "eq" || fc.S == "def") && len(fc.A) >= 2 && (fc.A[0].Key() == rk || (fc.S == "eq" && fc.A[0].Key() == t.Key())) {
 					found = true
 				}
 			}
